@@ -41,74 +41,9 @@ func factorisations(n, maxRank int) [][]int {
 }
 
 // metaInvariant checks the metadata invariant of C13 on a tensor.
-func metaInvariant(t *tensor.Dense) string {
-	shape := t.Shape()
-	if t.Size() != ref.Prod(shape) {
-		return fmt.Sprintf("Size()=%d but shape %v", t.Size(), shape)
-	}
-	m := tensor.VerifMetaOf(t)
-	if m.ElSize == 0 {
-		return ""
-	}
-	win := m.RawLen / m.ElSize
-	strides := m.Strides
-	if len(shape) == 0 || ref.Prod(shape) <= 1 {
-		if win < 1 && ref.Prod(shape) == 1 {
-			return "one element but empty storage window"
-		}
-		return ""
-	}
-	if len(strides) != len(shape) && !(len(strides) == 1 && tensor.Shape(shape).IsVector()) {
-		return fmt.Sprintf("%d strides for shape %v", len(strides), shape)
-	}
-	seen := map[int]bool{}
-	bad := ""
-	ref.ForCoords(shape, func(c []int) {
-		if bad != "" {
-			return
-		}
-		at := 0
-		for i := range c {
-			st := strides[0]
-			if len(strides) == len(shape) {
-				st = strides[i]
-			}
-			at += c[i] * st
-		}
-		if at < 0 || at >= win {
-			bad = fmt.Sprintf("coordinate %v maps to offset %d outside the storage window of %d elements (shape %v strides %v)", c, at, win, shape, strides)
-			return
-		}
-		if seen[at] {
-			bad = fmt.Sprintf("two coordinates map to offset %d (shape %v strides %v)", at, shape, strides)
-		}
-		seen[at] = true
-	})
-	return bad
-}
+func metaInvariant(t *tensor.Dense) string { return atlas.MetaInvariant(t) }
 
-// orderInvariant: the data-order flags agree with the strides. A tensor that is not marked transposed and whose
-// strides are exactly the canonical row-major (column-major) strides of its shape - and not also the other ones - must
-// report IsRowMajor (IsColMajor): kernels choose their traversal from the flag alone.
-func orderInvariant(t *tensor.Dense) string {
-	shape := t.Shape()
-	m := tensor.VerifMetaOf(t)
-	if m.O.IsTransposed() && m.OldZero {
-		return fmt.Sprintf("flagged transposed without a pre-transpose access pattern (shape %v strides %v)", shape, m.Strides)
-	}
-	if len(shape) < 2 || len(m.Strides) != len(shape) || m.O.IsTransposed() || !m.OldZero {
-		return ""
-	}
-	rm := ref.EqInts(m.Strides, tensor.Shape(shape).CalcStrides())
-	cm := ref.EqInts(m.Strides, tensor.Shape(shape).CalcStridesColMajor())
-	switch {
-	case rm && !cm && m.O.IsColMajor():
-		return fmt.Sprintf("row-major strides %v for shape %v but the tensor is flagged column-major", m.Strides, shape)
-	case cm && !rm && !m.O.IsColMajor():
-		return fmt.Sprintf("column-major strides %v for shape %v but the tensor is flagged row-major", m.Strides, shape)
-	}
-	return ""
-}
+func orderInvariant(t *tensor.Dense) string { return atlas.OrderInvariant(t) }
 
 func runC13(r *core.Run) {
 	quick := isQuick(r)
